@@ -111,8 +111,17 @@ def r14_1(ctx):
             if p.outcome == "return":
                 n += 1
                 r = p.ret
-                nonnull = _truth(p, r) is True or (r in allocs and _truth(p, r) is True)
-                ctx.check(nonnull and r != NULL, "R14.1", F, "init_bucket returns an initialised (non-null) bucket", None, detail=R, sig="returns-bucket")
+                if r in allocs:
+                    # an own dummy node may be returned only when this thread inserted and published it (never after it was freed)
+                    pub = [x for j, x in calls if re.search(r"bucket_table::bucket$", x.q) and len(x.args) == 2 and x.args[1] == r]
+                    fr = [x for j, x in calls if x.q.endswith("::free_aux_node") and x.args and x.args[0] == r]
+                    ok = bool(pub) and not fr
+                else:
+                    # otherwise the value must have been read from the bucket table for this bucket and found non-null (also through a loop variable)
+                    getters = [x for j, x in calls if re.search(r"bucket_table::bucket$", x.q) and len(x.args) == 1 and x.args[0] == nB]
+                    ok = r != NULL and _truth(p, r) is True and (any(x.val == r for x in getters) or (isinstance(r, tuple) and r[:1] == ("phi",)))
+                ctx.check(ok, "R14.1", F, "init_bucket returns the published bucket head (its own dummy only when it inserted and published it, never a freed one)", None,
+                          detail="returns %r. %s" % (r, R), sig="returns-bucket")
     if n < 20:
         ctx.broken("init_bucket sites not found (%d)" % n)
 r14_1.rule_id = "R14.1"
